@@ -592,6 +592,10 @@ def check(prog, rep, tier):
         for p in gp:
             rv = p.exit[1]
             fp = rv[1][2] if rv[0] == "tup" and len(rv[1]) == 3 else None
+            if fp is None and any(n[0] == "f" and n[1] == SELF for n in walk(rv)):
+                from .C19 import memo_sound
+                if memo_sound(prog, ctx, g)[0]:
+                    continue  # a memo hit: returns what an earlier miss (judged on its own path) returned
             if fp is None:
                 bad = (f"returns {nshow(rv)}", "fingerprint info is not (idx_1, idx_2, fingerprint)", None)
                 break
